@@ -410,7 +410,11 @@ class KeyedSet(Generic[ItemType, KeyType], MutableSet, KeyedBase):  # pylint: di
         except TypeError:
             # Unhashable items can still be looked up via their (hashable) key.
             pass
-        item_key = self.key(key)
-        if item_key in self._dict:
-            return self._dict[item_key]
+        try:
+            item_key = self.key(key)
+            if item_key in self._dict:
+                return self._dict[item_key]
+        except TypeError:
+            # Not something the key function can digest: no such item.
+            pass
         raise KeyError(key)
